@@ -9,6 +9,9 @@
 //            dec13:L       all 13^L strings of length L over {A,z,9,+,/,=,' ','\n',-,_,00,80,FF}
 //            heap13:P:L    P in 16..20 valid characters followed by every dec13 string of length L (input lives in an exact-size heap block)
 //            long          58*36 alternating strings a,b,a,b,.. of length 7..64 over enc6 x enc6 and the 256 rotations of 00..FF
+//            sweep:<c|f>:LMAX                      LENGTH SWEEP, index = L in 0..LMAX: c = counting pattern 00 01 .. FF 00 ..; f = all FF (L even) / all 80 (L odd)
+//            sweepdec:<c|f>:<T>:<p|u>:LMAX         reference encoding of that string, padded (p) or with the '=' removed (u, only L%3 != 0), followed by the
+//                                                  terminator T in none|pad|nl|high|dash ("", "=", "\n", "\x80", "-")
 //            lit:xHEX      the one string given in hex (replay)
 //   --refdump MODE FAMILY LO HI prints the reference's answers only (cross-checked against python's base64 by check.py)
 //     LO HI  index range [LO,HI) inside the family (index = the string read as a number in base |alphabet|, most significant first)
@@ -66,20 +69,38 @@ static bool unhex(const std::string& s, bytes& out)
 static std::string show(const bytes& b)
 {
     static const char* d = "0123456789abcdef";
-    std::string s = "\"";
-    for (unsigned char c : b)
-    {
-        if (c >= 0x20 && c < 0x7f && c != '"' && c != '\\') s += char(c);
-        else { s += "\\x"; s += d[c >> 4]; s += d[c & 15]; }
-    }
-    return s + "\" (" + vf::str(b.size()) + " bytes, hex " + hex(b).substr(1) + ")";
+    auto piece = [&](std::size_t lo, std::size_t hi) {
+        std::string s;
+        for (std::size_t i = lo; i < hi; ++i)
+        {
+            unsigned char c = b[i];
+            if (c >= 0x20 && c < 0x7f && c != '"' && c != '\\') s += char(c);
+            else { s += "\\x"; s += d[c >> 4]; s += d[c & 15]; }
+        }
+        return s;
+    };
+    if (b.size() <= 48) return "\"" + piece(0, b.size()) + "\" (" + vf::str(b.size()) + " bytes, hex " + hex(b).substr(1) + ")";
+    // long strings (length sweep): first 24 and last 12 bytes only; the replay arguments regenerate the whole string
+    return "\"" + piece(0, 24) + "\" ... \"" + piece(b.size() - 12, b.size()) + "\" (" + vf::str(b.size()) + " bytes)";
+}
+// where two long strings first differ (for messages about the length sweep)
+template <class A, class B>
+static std::string diffnote(const A& a, const B& b)
+{
+    if (a.size() <= 48 && b.size() <= 48) return "";
+    std::size_t n = a.size() < b.size() ? a.size() : b.size(), i = 0;
+    while (i < n && static_cast<unsigned char>(a[i]) == static_cast<unsigned char>(b[i])) ++i;
+    return " [lengths " + vf::str(a.size()) + " vs " + vf::str(b.size()) + ", first difference at offset " + vf::str(i) + "]";
 }
 static std::string show(const std::string& b) { return show(bytes(b.begin(), b.end())); }
 
 struct Family
 {
     std::string spec;
-    int kind = 0;            // 0 full, 1 enc6, 2 dec13, 3 heap13, 4 long, 5 lit
+    int kind = 0;            // 0 full, 1 enc6, 2 dec13, 3 heap13, 4 long, 5 lit, 6 sweep, 7 sweepdec
+    char content = 'c';      // sweep: 'c' counting pattern 00 01 .. FF 00 .., 'f' fill: all FF for even length, all 80 for odd length
+    int term = 0;            // sweepdec: terminator appended to the encoding: 0 none, 1 "=", 2 "\n", 3 "\x80", 4 "-"
+    bool unpadded = false;   // sweepdec: '=' padding of the canonical encoding removed (only lengths with L % 3 != 0)
     int L = 0, P = 0;
     bytes lit;
     unsigned long long count = 0;
@@ -101,6 +122,30 @@ struct Family
             return true;
         }
         if (s == "long") { kind = 4; count = 58ull * 36 + 256; return true; }
+        if (s.compare(0, 6, "sweep:") == 0)
+        {
+            // sweep:<c|f>:<Lmax> — index = length L in 0..Lmax
+            kind = 6;
+            int lmax = 0;
+            if (std::sscanf(s.c_str() + 6, "%c:%d", &content, &lmax) != 2 || (content != 'c' && content != 'f') || lmax < 0 || lmax > 1000000) return false;
+            count = (unsigned long long)lmax + 1;
+            return true;
+        }
+        if (s.compare(0, 9, "sweepdec:") == 0)
+        {
+            // sweepdec:<c|f>:<none|pad|nl|high|dash>:<p|u>:<Lmax> — RFC 4648 encoding (reference) of the sweep string of length L, padded (p: L = index)
+            // or with its padding removed (u: only L % 3 != 0, L = 3*(index/2) + 1 + index%2), followed by the terminator
+            kind = 7;
+            char tn[8] = {0}, pu = 0;
+            int lmax = 0;
+            if (std::sscanf(s.c_str() + 9, "%c:%7[a-z]:%c:%d", &content, tn, &pu, &lmax) != 4 || (content != 'c' && content != 'f') || lmax < 0 || lmax > 1000000) return false;
+            const std::string t = tn;
+            term = t == "none" ? 0 : t == "pad" ? 1 : t == "nl" ? 2 : t == "high" ? 3 : t == "dash" ? 4 : -1;
+            if (term < 0 || (pu != 'p' && pu != 'u')) return false;
+            unpadded = pu == 'u';
+            count = unpadded ? (unsigned long long)(lmax - lmax / 3) : (unsigned long long)lmax + 1;
+            return true;
+        }
         if (s.compare(0, 4, "lit:") == 0) { kind = 5; count = 1; return unhex(s.substr(4), lit); }
         return false;
     }
@@ -142,8 +187,36 @@ struct Family
                 for (unsigned i = 0; i < 256; ++i) out.push_back(static_cast<unsigned char>((r + i) & 255u));
             }
             break;
+        case 6: sweep_content(content, std::size_t(idx), out); break;
+        case 7:
+        {
+            static bytes plain;
+            const std::size_t len = unpadded ? std::size_t(3 * (idx / 2) + 1 + idx % 2) : std::size_t(idx);
+            sweep_content(content, len, plain);
+            ref4648::encode(plain, out);
+            if (unpadded) while (!out.empty() && out.back() == '=') out.pop_back();
+            static const char* T[5] = {"", "=", "\n", "\x80", "-"};
+            for (const char* t = T[term]; *t; ++t) out.push_back(static_cast<unsigned char>(*t));
+            break;
+        }
         default: out = lit; break;
         }
+    }
+
+    // Sweep strings of at most 256 plain bytes can coincide with a case of the short-string families (full:L, enc6:L, long, dec13:L) or with the
+    // other sweep content (L = 0); they are executed and judged, but conservatively NOT counted in distinct_nontrivial.
+    bool maybe_duplicate(unsigned long long idx) const
+    {
+        if (kind == 6) return idx <= 256;
+        if (kind == 7) return (unpadded ? 3 * (idx / 2) + 1 + idx % 2 : idx) <= 256;
+        return false;
+    }
+
+    static void sweep_content(char content, std::size_t len, bytes& out)
+    {
+        out.resize(len);
+        if (content == 'c') for (std::size_t i = 0; i < len; ++i) out[i] = static_cast<unsigned char>(i & 255u);
+        else std::fill(out.begin(), out.end(), static_cast<unsigned char>(len % 2 == 0 ? 0xFF : 0x80));
     }
 };
 
@@ -204,7 +277,20 @@ static std::string dec_class_name(const bytes& in)
     std::size_t k = ref4648::leading_run(in);
     return "run%4=" + vf::str(k % 4) + ",stop=" + STOP_NAME[stop_class(in, k)];
 }
-static std::vector<std::string> replay_args(const char* mode, const bytes& in) { return {"--job", mode, "lit:" + hex(in), "0", "1"}; }
+// the case being judged (set before every case, also by the parent when it attributes a crash): long inputs are replayed by (family, index)
+static const Family* g_fam = nullptr;
+static unsigned long long g_idx = 0;
+static std::vector<std::string> replay_args(const char* mode, const bytes& in)
+{
+    if (in.size() <= 64 || !g_fam) return {"--job", mode, "lit:" + hex(in), "0", "1"};
+    return {"--job", mode, g_fam->spec, vf::str(g_idx), vf::str(g_idx + 1)};
+}
+static std::string origin(const bytes& in) { return in.size() <= 64 || !g_fam ? std::string() : " {input = " + g_fam->spec + " #" + vf::str(g_idx) + "}"; }
+// plain char is a build configuration: the harness is built twice (default = signed here, and -funsigned-char)
+static const bool CHAR_IS_UNSIGNED = static_cast<char>(-1) > 0;
+static const std::string FN_ENC = CHAR_IS_UNSIGNED ? "base64encode[-funsigned-char]" : "base64encode";
+static const std::string FN_DEC = CHAR_IS_UNSIGNED ? "base64decode[-funsigned-char]" : "base64decode";
+static const std::string FN_RT = CHAR_IS_UNSIGNED ? "roundtrip[-funsigned-char]" : "roundtrip";
 
 static bool same(const std::string& a, const bytes& b)
 {
@@ -217,6 +303,8 @@ static bool same(const std::string& a, const bytes& b)
 static void enc_case(const Family& f, unsigned long long idx, bytes& in)
 {
     f.make(idx, in);
+    g_fam = &f;
+    g_idx = idx;
     const int r = int(in.size() % 3), ct = content_class(in);
     if (S->enc_crashes[r][ct] >= CRASH_LIMIT) { S->skipped++; return; }
     static bytes expected;   // reused buffer (one heap block for the whole chunk instead of one per case)
@@ -242,37 +330,39 @@ static void enc_case(const Family& f, unsigned long long idx, bytes& in)
     S->enc_cases++;
     S->enc_class[r][ct]++;
     if ((long long)in.size() > S->max_len) S->max_len = (long long)in.size();
-    const bool nontrivial = ct != CT_ASCII;
+    const bool nontrivial = ct != CT_ASCII && !f.maybe_duplicate(idx);
     if (nontrivial) S->enc_nontrivial++;
 
     if (!threw && !asan && same(e, expected) && same(d, in) && !(nontrivial && want_sample())) return;   // the common case
     const std::string cls = enc_class_name(in);
     if (threw)
     {
-        report(std::string("C13/") + (ph == PH_ENCODE ? "base64encode" : "roundtrip") + "/" + cls + "/exception",
+        report("C13/" + (ph == PH_ENCODE ? FN_ENC : FN_RT) + "/" + cls + "/exception",
                std::string(ph == PH_ENCODE ? "base64encode(s)" : "base64decode(base64encode(s))") + " threw '" + what + "' for s = " + show(in), replay_args("enc", in));
         return;
     }
     if (asan)
-        report("C13/roundtrip/" + cls + "/asan-report", "AddressSanitizer reported a memory error during base64encode(s) / base64decode(base64encode(s)) for s = " + show(in),
+        report("C13/" + FN_RT + "/" + cls + "/asan-report", "AddressSanitizer reported a memory error during base64encode(s) / base64decode(base64encode(s)) for s = " + show(in),
                replay_args("enc", in));
     if (!same(e, expected))
-        report("C13/base64encode/" + cls + "/wrong-encoding",
-               "base64encode(s) for s = " + show(in) + ": RFC 4648 says " + show(expected) + ", observed " + show(e), replay_args("enc", in));
+        report("C13/" + FN_ENC + "/" + cls + "/wrong-encoding",
+               "base64encode(s) for s = " + show(in) + origin(in) + ": RFC 4648 says " + show(expected) + ", observed " + show(e) + diffnote(expected, e), replay_args("enc", in));
     if (!same(d, in))
-        report("C13/roundtrip/" + cls + "/decode-of-encode-differs",
-               "base64decode(base64encode(s)) != s for s = " + show(in) + ": base64encode(s) = " + show(e) + ", decoded back to " + show(d), replay_args("enc", in));
+        report("C13/" + FN_RT + "/" + cls + "/decode-of-encode-differs",
+               "base64decode(base64encode(s)) != s for s = " + show(in) + origin(in) + ": base64encode(s) = " + show(e) + ", decoded back to " + show(d) + diffnote(in, d), replay_args("enc", in));
     if (nontrivial && want_sample() && (idx & 0xff) >= 0x80)
     {
         S->job_samples++;
         S->proc_samples++;
-        vf::sample("enc " + f.spec + " #" + vf::str(idx) + ": base64encode(" + show(in) + ") = " + show(e) + ", decodes back to " + show(d), 1 << 30);
+        vf::sample(std::string(CHAR_IS_UNSIGNED ? "[-funsigned-char build] " : "") + "enc " + f.spec + " #" + vf::str(idx) + ": base64encode(" + show(in) + ") = " + show(e) + ", decodes back to " + show(d), 1 << 30);
     }
 }
 
 static void dec_case(const Family& f, unsigned long long idx, bytes& in)
 {
     f.make(idx, in);
+    g_fam = &f;
+    g_idx = idx;
     const std::size_t k = ref4648::leading_run(in);
     const int st = stop_class(in, k);
     if (S->dec_crashes[st] >= CRASH_LIMIT) { S->skipped++; return; }
@@ -299,18 +389,18 @@ static void dec_case(const Family& f, unsigned long long idx, bytes& in)
     if ((long long)in.size() > S->max_len) S->max_len = (long long)in.size();
     // non-trivial: the input is not the canonical RFC 4648 encoding of anything (those are what the round-trip family presents)
     ref4648::encode(expected, canon);
-    const bool nontrivial = canon != in;
+    const bool nontrivial = canon != in && !f.maybe_duplicate(idx);
     if (nontrivial) S->dec_nontrivial++;
 
     if (!threw && !asan && same(d, expected) && !(nontrivial && want_sample())) return;   // the common case
     const std::string cls = dec_class_name(in);
     if (threw)
     {
-        report("C13/base64decode/" + cls + "/exception", "base64decode(t) threw '" + what + "' for t = " + show(in), replay_args("dec", in));
+        report("C13/" + FN_DEC + "/" + cls + "/exception", "base64decode(t) threw '" + what + "' for t = " + show(in), replay_args("dec", in));
         return;
     }
     if (asan)
-        report("C13/base64decode/stop=" + std::string(STOP_NAME[st]) + "/asan-report",
+        report("C13/" + FN_DEC + "/stop=" + std::string(STOP_NAME[st]) + "/asan-report",
                "AddressSanitizer reported a memory error during base64decode(t) for t = " + show(in) + " (leading alphabet run " + vf::str(k) + ", first other byte: " + STOP_NAME[st] + ")",
                replay_args("dec", in));
     if (!same(d, expected))
@@ -318,16 +408,16 @@ static void dec_case(const Family& f, unsigned long long idx, bytes& in)
         const char* kind = d.size() > expected.size() ? "output-too-long" : d.size() < expected.size() ? "output-too-short" : "wrong-bytes";
         // output-too-long = something behind the stop was decoded: keyed by WHAT stopped the run; otherwise keyed by the phase of the accumulator
         const std::string where = d.size() > expected.size() ? std::string("stop=") + STOP_NAME[st] : "run%4=" + vf::str(k % 4);
-        report("C13/base64decode/" + where + "/" + kind,
+        report("C13/" + FN_DEC + "/" + where + "/" + kind,
                "base64decode(t) for t = " + show(in) + ": leading alphabet run has " + vf::str(k) + " characters (then: " + STOP_NAME[st] + "), so the result must be the " +
-                   vf::str(expected.size()) + " whole bytes " + show(expected) + "; observed " + show(d),
+                   vf::str(expected.size()) + " whole bytes " + show(expected) + "; observed " + show(d) + diffnote(expected, d) + origin(in),
                replay_args("dec", in));
     }
     if (nontrivial && want_sample() && k > 0 && (idx % 13) >= 5)
     {
         S->job_samples++;
         S->proc_samples++;
-        vf::sample("dec " + f.spec + " #" + vf::str(idx) + ": base64decode(" + show(in) + ") = " + show(d) + " [run " + vf::str(k) + ", stop " + STOP_NAME[st] + "]", 1 << 30);
+        vf::sample(std::string(CHAR_IS_UNSIGNED ? "[-funsigned-char build] " : "") + "dec " + f.spec + " #" + vf::str(idx) + ": base64decode(" + show(in) + ") = " + show(d) + " [run " + vf::str(k) + ", stop " + STOP_NAME[st] + "]", 1 << 30);
     }
 }
 
@@ -390,7 +480,7 @@ static void run_range(bool enc, const Family& f, unsigned long long lo, unsigned
             in.reserve(300);
             for (unsigned long long i = at; i < hi; ++i)
             {
-                if (((i - at) & 0x3ff) == 0) alarm(30);   // watchdog: 1024 cases never take 30 s unless a call does not return
+                if (((i - at) & 0x3f) == 0) alarm(60);   // watchdog: 64 cases (<= 70000 bytes each) never take 60 s unless a call does not return
                 if (enc) enc_case(f, i, in); else dec_case(f, i, in);
             }
             alarm(0);
@@ -412,6 +502,8 @@ static void run_range(bool enc, const Family& f, unsigned long long lo, unsigned
         }
         bytes in;
         f.make((unsigned long long)cur, in);
+        g_fam = &f;
+        g_idx = (unsigned long long)cur;
         // killed by a signal, or ended inside the call by a fatal sanitizer error / exit (ASan's Die() uses exitcode=0 here)
         const std::string how = WIFSIGNALED(st) ? signame(WTERMSIG(st)) : "a premature exit(" + vf::str(WEXITSTATUS(st)) + ")";
         const std::string diag = first_diag(efd);
@@ -423,10 +515,10 @@ static void run_range(bool enc, const Family& f, unsigned long long lo, unsigned
             S->enc_crashes[r][ct]++;
             S->enc_cases++;
             S->enc_class[r][ct]++;
-            if (ct != CT_ASCII) S->enc_nontrivial++;
+            if (ct != CT_ASCII && !f.maybe_duplicate((unsigned long long)cur)) S->enc_nontrivial++;
             if ((long long)in.size() > S->max_len) S->max_len = (long long)in.size();
-            report(std::string("C13/") + (ph == PH_ENCODE ? "base64encode" : "roundtrip") + "/" + enc_class_name(in) + "/" + kind,
-                   std::string(ph == PH_ENCODE ? "base64encode(s)" : "base64decode(base64encode(s))") + " did not return for s = " + show(in) + ": the process was ended by " + how +
+            report("C13/" + (ph == PH_ENCODE ? FN_ENC : FN_RT) + "/" + enc_class_name(in) + "/" + kind,
+                   std::string(ph == PH_ENCODE ? "base64encode(s)" : "base64decode(base64encode(s))") + " did not return for s = " + show(in) + origin(in) + ": the process was ended by " + how +
                        (diag.empty() ? "" : " [" + diag + "]"),
                    replay_args("enc", in));
         }
@@ -437,10 +529,10 @@ static void run_range(bool enc, const Family& f, unsigned long long lo, unsigned
             S->dec_crashes[sc]++;
             S->dec_cases++;
             S->dec_class[sc][k % 4]++;
-            if (ref4648::encode(ref4648::spec_decode(in)) != in) S->dec_nontrivial++;
+            if (ref4648::encode(ref4648::spec_decode(in)) != in && !f.maybe_duplicate((unsigned long long)cur)) S->dec_nontrivial++;
             if ((long long)in.size() > S->max_len) S->max_len = (long long)in.size();
-            report("C13/base64decode/stop=" + std::string(STOP_NAME[sc]) + "/" + kind,
-                   "base64decode(t) did not return for t = " + show(in) + " (leading alphabet run " + vf::str(k) + ", first other byte: " + STOP_NAME[sc] +
+            report("C13/" + FN_DEC + "/stop=" + std::string(STOP_NAME[sc]) + "/" + kind,
+                   "base64decode(t) did not return for t = " + show(in) + origin(in) + " (leading alphabet run " + vf::str(k) + ", first other byte: " + STOP_NAME[sc] +
                        "; expected result " + show(ref4648::spec_decode(in)) + "): the process was ended by " + how + (diag.empty() ? "" : " [" + diag + "]"),
                    replay_args("dec", in));
         }
